@@ -40,6 +40,9 @@ type Engine struct {
 	Sources  map[string]string // file -> sha256 (repo sources)
 	LoadTime time.Duration
 	Solver   string
+
+	baseMu      sync.Mutex
+	baseGlobals map[*ssa.Global]*value
 }
 
 // Config of one exploration.
@@ -225,34 +228,50 @@ func (e *Engine) newInterpreter(cfg RunConfig) (*interpreter, error) {
 	}
 	i.sol = sol
 	i.ps = &pathState{covers: map[string]bool{}}
-	// globals: allocate all; mark every package initialised except once+subject
-	allowed := map[string]bool{}
-	for _, p := range e.once {
-		allowed[p] = true
-	}
-	for p := range e.subject {
-		allowed[p] = true
-	}
-	for _, pkg := range e.Prog.AllPackages() {
-		for _, m := range pkg.Members {
-			if g, ok := m.(*ssa.Global); ok {
-				cell := zero(mustDeref(g.Type()))
-				i.globals[g] = &cell
-				if g.Name() == "init$guard" && !allowed[pkg.Pkg.Path()] {
-					*i.globals[g] = true
+	i.fnCount = map[*ssa.Function]int64{}
+	e.baseMu.Lock()
+	defer e.baseMu.Unlock()
+	if e.baseGlobals == nil {
+		// globals: allocate all; mark every package initialised except once+subject
+		allowed := map[string]bool{}
+		for _, p := range e.once {
+			allowed[p] = true
+		}
+		for p := range e.subject {
+			allowed[p] = true
+		}
+		for _, pkg := range e.Prog.AllPackages() {
+			for _, m := range pkg.Members {
+				if g, ok := m.(*ssa.Global); ok {
+					cell := zero(mustDeref(g.Type()))
+					i.globals[g] = &cell
+					if g.Name() == "init$guard" && !allowed[pkg.Pkg.Path()] {
+						*i.globals[g] = true
+					}
 				}
 			}
 		}
-	}
-	// run environment inits once
-	i.fnCount = map[*ssa.Function]int64{}
-	for _, p := range e.once {
-		pkg := e.Pkgs[p]
-		if pkg == nil {
-			continue
+		// run environment inits once; their globals are immutable afterwards and shared
+		for _, p := range e.once {
+			pkg := e.Pkgs[p]
+			if pkg == nil {
+				continue
+			}
+			if err := i.runInit(pkg); err != nil {
+				return nil, fmt.Errorf("init of %s: %v", p, err)
+			}
 		}
-		if err := i.runInit(pkg); err != nil {
-			return nil, fmt.Errorf("init of %s: %v", p, err)
+		e.baseGlobals = map[*ssa.Global]*value{}
+		for g, c := range i.globals {
+			e.baseGlobals[g] = c
+		}
+	}
+	for g, c := range e.baseGlobals {
+		if g.Pkg != nil && e.subject[g.Pkg.Pkg.Path()] {
+			cell := zero(mustDeref(g.Type()))
+			i.globals[g] = &cell
+		} else {
+			i.globals[g] = c
 		}
 	}
 	return i, nil
